@@ -25,8 +25,11 @@ import subprocess
 import multiprocessing as mp
 
 VERIF = os.path.dirname(os.path.dirname(os.path.abspath(__file__)))
-EVIDENCE_DIR = os.path.join(VERIF, "evidence")
-REPLAY_DIR = os.path.join(VERIF, "replays")
+# MXMC_SCRATCH_OUT redirects evidence / replay files (used only when trying seeded changes on a scratch
+# copy of the repository; the registered commands never set it)
+_OUT = os.environ.get("MXMC_SCRATCH_OUT") or VERIF
+EVIDENCE_DIR = os.path.join(_OUT, "evidence")
+REPLAY_DIR = os.path.join(_OUT, "replays")
 KNOWN_FILE = os.path.join(VERIF, "known_findings.jsonl")
 
 NPROC = int(os.environ.get("VERIF_JOBS", "0")) or min(16, os.cpu_count() or 1)
